@@ -13,6 +13,7 @@ import Driver.Lua
 import Driver.Retention
 import Driver.Rest
 import Driver.SanFilter
+import Driver.Sys
 open Driver
 
 /-
@@ -35,6 +36,7 @@ def main (args : List String) : IO UInt32 := do
   | ["lua"] => runLoop Driver.LuaMode.step ()
   | ["ret"] => runLoop Driver.RetMode.step Driver.RetMode.init
   | ["rest"] => runLoop Driver.RestMode.step Driver.RestMode.init
+  | ["sys"] => runLoop Driver.SysMode.step Driver.SysMode.init
   | ["sanf"] => runLoop (fun (_ : Unit) toks => ((), Driver.SanFilter.handler toks)) ()
   | _ => IO.eprintln s!"unknown mode {args}"; return 2
   return 0
